@@ -79,10 +79,14 @@ def exec_write(scn):
     how = scn["how"]
     on_lines = all(b["p48"] % 192 == 0 for b in scn["bpms"])
     try:
-        if how in ("built", "rated", "edit_rewrite", "unsorted_bpms"):
+        if how in ("built", "rated", "rated_odd", "edit_rewrite", "unsorted_bpms"):
             ms = build_set(scn, r)
             if how == "rated":
                 ms = ms.rate(2.0).rate(0.5)
+            elif how == "rated_odd":
+                # a rate after which offset and sample window are no longer whole milliseconds (beat lengths stay whole ticks)
+                ms = ms.rate(0.8)
+                ms.sample_start, ms.sample_length = 12345.6, 10000.25
             elif how == "edit_rewrite":
                 # history: written once, then the tempo is edited in place through the column property
                 ms.write()
